@@ -49,4 +49,30 @@ def pySetAdd {α : Type} [DecidableEq α] (s : List α) (x : α) : List α := if
 def pySetRemove {α : Type} [DecidableEq α] (s : List α) (x : α) : M (List α) :=
   if x ∈ s then pure (s.erase x) else throw .keyError
 
+/-- a numpy `int64` array of shape `(a, b, 3)`: rows of cells (overflow of int64 is not modelled) -/
+abbrev Tab3 := List (List (Int × Int × Int))
+
+/-- `np.zeros((a, b, 3), dtype=np.int64)` -/
+def tab3Zeros (a b : Int) : M Tab3 :=
+  if a < 0 ∨ b < 0 then throw .valueError      -- "negative dimensions are not allowed"
+  else pure (List.replicate a.toNat (List.replicate b.toNat (0, 0, 0)))
+
+/-- `t[:, :, k] = v` -/
+def tab3Fill (t : Tab3) (k : Nat) (v : Int) : Tab3 :=
+  t.map (fun row => row.map (fun c => match k with | 0 => (v, c.2.1, c.2.2) | 1 => (c.1, v, c.2.2) | _ => (c.1, c.2.1, v)))
+
+/-- `t[i, j, :]` (numpy: negative indices wrap, out of range is `IndexError`) -/
+def tab3Get (t : Tab3) (i j : Int) : M (Int × Int × Int) := do
+  let row ← pyIndex t i
+  pyIndex row j
+
+/-- `t[i, j, :] = c` -/
+def tab3Set (t : Tab3) (i j : Int) (c : Int × Int × Int) : M Tab3 := do
+  let i' : Int := if i < 0 then i + t.length else i
+  if i' < 0 ∨ i' ≥ t.length then throw .indexError
+  let row ← pyIndex t i
+  let j' : Int := if j < 0 then j + row.length else j
+  if j' < 0 ∨ j' ≥ row.length then throw .indexError
+  pure (t.set i'.toNat (row.set j'.toNat c))
+
 end Ckpt.Py
